@@ -19,7 +19,7 @@ from .. import cfg as cfgmod
 from .. import isa
 from ..core import REPO, AnalysisError, Ctx
 from ..pyfacts import NotConst, PyEval, PyProgram, attr_chain, unparse
-from ..rsfacts import RustProgram, expr_text, pat_text, walk
+from ..rsfacts import RsInterp, RustProgram, expr_text, pat_text, walk
 from ..rules import (def_root, rs_names_reaching, key_of, py_defs, py_guard_text, py_is_call, py_leaves, rs_defs, rs_guard_text, rs_is_call,
                      rs_is_mcall, rs_leaves)
 
@@ -53,6 +53,7 @@ def run(ctx: Ctx) -> None:
     partition(ctx, py, rs)
     sentinel(ctx, rs)
     read_only(ctx, py, rs)
+    readonly_interval(ctx, rs)
     little_endian(ctx, py, rs)
     lookup_purity_and_handlers(ctx, py)
 
@@ -495,6 +496,45 @@ def little_endian(ctx: Ctx, py: PyProgram, rs: RustProgram) -> None:
         if bts:
             ctx.sample({"fn": qual, "bytes": expr_text(bts[0])})
     ctx.instance("C11.5/little-endian", "multi-byte accessors are little-endian byte compositions (Python 6 accessors + direct-storage ban, Rust 6 loops)", n, 18)
+
+
+def readonly_interval(ctx: Ctx, rs: RustProgram) -> None:
+    """The Rust read-only test is an interval-overlap predicate on inclusive ranges: MemoryImage::is_read_only_range is run by the
+    interpreter for every (start, len) of a small grid around one range and compared with `[start, start+len-1]` meets `[lo, hi]`.
+    An off-by-one at either end lets a store land on the first or last byte of the ROM."""
+    from ..rsfacts import _RsReturn
+
+    class _It(RsInterp):
+        def call_hook(self, path: str, args: list, env: dict, e: dict) -> Any:
+            if path.split("::")[-1] == "canonical_address":
+                return args[0] & 0xFFFFFF
+            return NotImplemented
+    it = _It(rs, MEM_RS)
+    fn = rs.fn(MEM_RS, "MemoryImage::is_read_only_range")
+    ps = [p for p in fn.params() if p != "self"]
+    ctx.need(len(ps) == 2, f"is_read_only_range: unexpected parameters {ps}")
+    lo, hi = 0x40, 0x4F
+    n = 0
+    bad = []
+    for start in range(lo - 6, hi + 7):
+        for ln in range(0, 5):
+            n += 1
+            env = {"self": {"readonly_ranges": [(lo, hi)]}, ps[0]: start, ps[1]: ln}
+            try:
+                try:
+                    got = it.block(fn.body, env)
+                except _RsReturn as r:
+                    got = r.v
+            except Exception as e:  # noqa: BLE001
+                raise AnalysisError(f"is_read_only_range left the evaluable fragment: {type(e).__name__}: {e}")
+            want = ln > 0 and start <= hi and start + ln - 1 >= lo
+            if bool(got) != want:
+                bad.append((start, ln, bool(got), want))
+    if bad:
+        s0, l0, g0, w0 = bad[0]
+        ctx.violation("C11.4/read-only", key_of(fn.file, fn.qual, "interval overlap"),
+                      f"is_read_only_range is not the overlap of [start, start+len-1] with the inclusive range: for the range {lo:#x}..{hi:#x}, start={s0:#x} len={l0} gives {g0}, should be {w0} ({len(bad)} of {n} grid points differ) - a store on an end byte of a read-only range is not blocked", fn.where)
+    ctx.instance("C11.4/readonly-interval", "is_read_only_range on a (start, len) grid around one inclusive range == interval overlap", n, 100)
 
 
 def lookup_purity_and_handlers(ctx: Ctx, py: PyProgram) -> None:
